@@ -509,7 +509,7 @@ theorem pullLoop_P : ∀ (fuel : Nat) (kc : Consumer) (lim : Option Int) (consum
           | false => simp only at hm; subst hm; simp only []; rw [hp, hn]
           | true => simp only at hm; subst hm; simp only [castRes]; rw [hp, hn]
 
-theorem openC_P (c : Obj) {w : World} (h : w.Clean) (hs : StaleOK c) (hdist : Distinct c) (n : Nat) (hn : 1 ≤ n) :
+theorem openC_P (c : Obj) {w : World} (h : w.Clean) (hdist : Distinct c) (n : Nat) (hn : 1 ≤ n) :
     ((openC c w).1 = .val () ∧ NoR0 (openC c w).2.1 ∧ Same c (openC c w).2.1 ∧
         P c.r0 (openC c w).2.2 + demandFrom (openC c w).2.1 n = P c.r0 w + needPulls c.ops c.g n c.xs) ∨
     ((openC c w).1 = .fail dslError ∧ P c.r0 (openC c w).2.2 = P c.r0 w + needPulls c.ops c.g n c.xs) := by
@@ -521,35 +521,30 @@ theorem openC_P (c : Obj) {w : World} (h : w.Clean) (hs : StaleOK c) (hdist : Di
   simp only at ho hpo
   obtain ⟨rfl, hc1⟩ := ho
   simp only []
-  have hp := pullOuter_clean { c with rest := c.xs, outerOpen := true } hc1
-  have hpp := pullOuter_P { c with rest := c.xs, outerOpen := true } hc1
-  generalize pullOuter { c with rest := c.xs, outerOpen := true } w1 = z at *
+  have hp := pullOuter_clean { c with cur := none, rest := c.xs, outerOpen := true } hc1
+  have hpp := pullOuter_P { c with cur := none, rest := c.xs, outerOpen := true } hc1
+  generalize pullOuter { c with cur := none, rest := c.xs, outerOpen := true } w1 = z at *
   obtain ⟨res2, c2, w2⟩ := z
   simp only at hp hpp
   obtain ⟨hc2, hm2⟩ := hp
   cases hnx : nextOuter c.ops c.xs with
   | none =>
       rw [hnx] at hm2 hpp; simp only at hm2 hpp; obtain ⟨rfl, rfl⟩ := hm2
-      have hden := nextOuter_none hnx
-      have hcur : c.cur = none := by
-        cases hcc : c.cur with
-        | none => rfl
-        | some s => exact absurd hden (hs (by simp [hcc]))
       left
       simp only []
       refine ⟨trivial, ?_, ⟨rfl, rfl, rfl, rfl⟩, ?_⟩
-      · intro s hs'; simp [hcur] at hs'
-      · simp only [demandFrom, hcur]; rw [needPulls_none n hnx, hpp, hpo]; omega
+      · intro s hs'; simp at hs'
+      · simp only [demandFrom]; rw [needPulls_none n hnx, hpp, hpo]; omega
   | some q =>
       obtain ⟨v, rest'⟩ := q
       rw [hnx] at hm2 hpp; simp only at hm2 hpp; obtain ⟨rfl, rfl⟩ := hm2
       obtain ⟨hden, hlen⟩ := nextOuter_some hnx
       have hns := needPulls_some (g := c.g) n hnx
-      have ho := openNext_clean { c with rest := rest', outerOpen := true } (c.g v) hc2
-      have hpn := openNext_P c.r0 { c with rest := rest', outerOpen := true } (c.g v) w2
-      have hso := openNext_cur_val { c with rest := rest', outerOpen := true } (c.g v) w2
+      have ho := openNext_clean { c with cur := none, rest := rest', outerOpen := true } (c.g v) hc2
+      have hpn := openNext_P c.r0 { c with cur := none, rest := rest', outerOpen := true } (c.g v) w2
+      have hso := openNext_cur_val { c with cur := none, rest := rest', outerOpen := true } (c.g v) w2
       simp only []
-      generalize openNext { c with rest := rest', outerOpen := true } (c.g v) w2 = u at *
+      generalize openNext { c with cur := none, rest := rest', outerOpen := true } (c.g v) w2 = u at *
       obtain ⟨res4, c4, w4⟩ := u
       simp only at ho hpn hso
       obtain ⟨hc4, hm4⟩ := ho
@@ -580,7 +575,7 @@ def demand (lim : Option Int) (c : Obj) : Nat :=
 
 /-- **exact demand**: a fault-free materialisation pulls the outer source exactly `demand` times -/
 theorem consume_P (fuel : Nat) (kc : Consumer) (lim : Option Int) (c : Obj) (w : World)
-    (h : w.Clean) (hs : StaleOK c) (hdist : Distinct c) (hf : fuelNeed c ≤ fuel) :
+    (h : w.Clean) (hdist : Distinct c) (hf : fuelNeed c ≤ fuel) :
     P c.r0 (Model.PipeDyn.consume fuel kc lim c w).2.2 = P c.r0 w + demand lim c := by
   simp only [Model.PipeDyn.consume]
   by_cases hoff : limOff lim
@@ -602,8 +597,8 @@ theorem consume_P (fuel : Nat) (kc : Consumer) (lim : Option Int) (c : Obj) (w :
           simp only [limOff, decide_eq_true_eq] at hoff
           refine ⟨m.toNat, by omega, by simp [demand, hoff], ?_⟩
           intro c1 _; simp only [allowance, Option.map, demandTot]; congr 1; omega
-    have ho := openC_clean c h hs
-    have hp := openC_P c h hs hdist n hn1
+    have ho := openC_clean c h
+    have hp := openC_P c h hdist n hn1
     generalize openC c w = x at *
     obtain ⟨res, c1, w1⟩ := x
     simp only at ho hp
